@@ -22,12 +22,44 @@ theorem readStmt_funcBegin (cfg : Cfg) (tab : List Str) (f : Func) (rest : List 
   simp [readKwStmt, readName_enc tab _ f.name _ h2 hl hn.ne_zero, noLabs_nil,
     readProto_enc tab f.vararg f.res f.args rest hr hrt hargs hin3 hl]
 
-theorem readStmt_kwOnly (cfg : Cfg) (tab : List Str) (k : Kw) (s : Stmt) (rest : List Byte)
-    (hk : (k = .endfunc ∧ s = .funcEnd) ∨ (k = .endmodule ∧ s = .modEnd))
-    (hin : k.bytes ++ [0] ∈ tab) (hl : tab.length ≤ 2 ^ 32) :
-    readStmt cfg tab (encTok tab (.name k.bytes) ++ rest) = .ok (s, rest) := by
-  rw [readStmt_kw cfg tab k rest hin hl]
-  rcases hk with ⟨rfl, rfl⟩ | ⟨rfl, rfl⟩ <;> simp [readKwStmt, noLabs_nil]
+theorem labs_enc_eq (tab : List Str) (labs : List Nat) :
+    (labs.map STok.lab).flatMap (encTok tab) = labs.flatMap (writeIdx Tag.lab1) := by
+  induction labs with
+  | nil => rfl
+  | cons a l ih => simp [List.flatMap_cons, ih]
+
+/-- a reserved name after label tokens: `readKwStmt` gets the labels -/
+theorem readStmt_kw_labs (cfg : Cfg) (tab : List Str) (labs : List Nat) (k : Kw) (r : List Byte)
+    (hlabs : ∀ l : Nat, l ∈ labs → l < 2 ^ 32) (hin : k.bytes ++ [0] ∈ tab) (hl : tab.length ≤ 2 ^ 32) :
+    readStmt cfg tab ((labs.map STok.lab).flatMap (encTok tab) ++ (encTok tab (.name k.bytes) ++ r))
+      = readKwStmt cfg tab labs k r := by
+  have hlen1 : labs.length ≤ (labs.flatMap (writeIdx Tag.lab1)).length :=
+    length_le_flatMap _ _ (fun l _ => by simp [writeIdx])
+  unfold readStmt
+  rw [labs_enc_eq]
+  simp only [P.bind_apply]
+  rw [readLabs_enc labs _ _ _ _ hlabs (readToken_name tab k.bytes r hin hl) (by intro n; simp)
+    (by simp only [List.length_append]; omega)]
+  simp only [toStr_idxOf tab _ hin, P.bind_apply, P.lift_ok, kwOf_cstr]
+
+theorem readStmt_modEnd (cfg : Cfg) (tab : List Str) (rest : List Byte)
+    (hin : Kw.endmodule.bytes ++ [0] ∈ tab) (hl : tab.length ≤ 2 ^ 32) :
+    readStmt cfg tab (encTok tab (.name (Kw.bytes .endmodule)) ++ rest) = .ok (.modEnd, rest) := by
+  rw [readStmt_kw cfg tab _ rest hin hl]
+  simp [readKwStmt, noLabs_nil]
+
+theorem readStmt_funcEnd (cfg : Cfg) (tab : List Str) (labs : List Nat) (rest : List Byte)
+    (hlabs : ∀ l : Nat, l ∈ labs → l < 2 ^ 32) (hq : cfg.endfuncLabels = false → labs = [])
+    (hin : Kw.endfunc.bytes ++ [0] ∈ tab) (hl : tab.length ≤ 2 ^ 32) :
+    readStmt cfg tab ((labs.map STok.lab).flatMap (encTok tab)
+        ++ (encTok tab (.name (Kw.bytes .endfunc)) ++ rest)) = .ok (.funcEnd labs, rest) := by
+  rw [readStmt_kw_labs cfg tab labs _ rest hlabs hin hl]
+  cases hb : cfg.endfuncLabels with
+  | true => simp [readKwStmt, hb]
+  | false =>
+    have := hq hb
+    subst this
+    simp [readKwStmt, hb, noLabs_nil]
 
 theorem readStmt_modBegin (cfg : Cfg) (tab : List Str) (n : Name) (rest : List Byte) (hn : NameOK n)
     (h1 : Kw.module_.bytes ++ [0] ∈ tab) (h2 : n ++ [0] ∈ tab) (hl : tab.length ≤ 2 ^ 32) :
@@ -141,26 +173,61 @@ def opCount : List Insn → Nat
   | .label _ :: r => opCount r
   | .op _ _ :: r => opCount r + 1
 
-/-- the instructions of a function: label tokens gather in front of the next instruction -/
+/-- instructions that have been appended when the reader has consumed the instruction list:
+everything except the labels that are still waiting for an instruction -/
+def settledInsns : List Nat → List Insn → List Insn
+  | _, [] => []
+  | labs, .label n :: r => settledInsns (labs ++ [n]) r
+  | labs, .op c ops :: r => labs.map Insn.label ++ (Insn.op c ops :: settledInsns [] r)
+
+theorem settled_append_pending (insns : List Insn) (labs : List Nat) :
+    settledInsns labs insns ++ (pendingLabs labs insns).map Insn.label = labs.map Insn.label ++ insns := by
+  induction insns generalizing labs with
+  | nil => simp [settledInsns, pendingLabs]
+  | cons i insns ih =>
+    cases i with
+    | label n => simp [settledInsns, pendingLabs, ih]
+    | op c ops => simp [settledInsns, pendingLabs, ih]
+
+theorem pendingLabs_lt (cfg : Cfg) (insns : List Insn) (labs : List Nat)
+    (hw : ∀ i : Insn, i ∈ insns → InsnOK cfg i) (hlabs : ∀ l : Nat, l ∈ labs → l < 2 ^ 32) :
+    ∀ l : Nat, l ∈ pendingLabs labs insns → l < 2 ^ 32 := by
+  induction insns generalizing labs with
+  | nil => simpa [pendingLabs] using hlabs
+  | cons i insns ih =>
+    have hw2 : ∀ j : Insn, j ∈ insns → InsnOK cfg j := fun j hj => hw j (List.mem_cons_of_mem _ hj)
+    cases i with
+    | label n =>
+      have hn : n < 2 ^ 32 := hw _ List.mem_cons_self
+      simp only [pendingLabs]
+      apply ih _ hw2
+      intro l hl'
+      rcases List.mem_append.mp hl' with h | h
+      · exact hlabs l h
+      · simp at h; omega
+    | op c ops =>
+      simp only [pendingLabs]
+      exact ih _ hw2 (by simp)
+
+/-- the instructions of a function: label tokens gather in front of the next instruction; labels
+after the last instruction stay in the input (they precede `endfunc`) -/
 theorem readLoop_insns (cfg : Cfg) (tab : List Str) (insns : List Insn) :
     ∀ (labs : List Nat) (fuel : Nat) (done : List Module) (macc : ModAcc) (facc : FuncAcc) (X : List Byte),
     (∀ i : Insn, i ∈ insns → InsnOK cfg i) → (∀ l : Nat, l ∈ labs → l < 2 ^ 32) →
     InTab tab (insns.flatMap (toksInsn cfg)) → tab.length ≤ 2 ^ 32 →
     (∀ i : Insn, i ∈ insns → insnRefsOK macc.decl i = true) →
-    pendingLabs labs insns = [] →
     readLoop cfg tab (fuel + opCount insns) { doneRev := done, mod := some macc, func := some facc }
         ((labs.map STok.lab).flatMap (encTok tab) ++ ((insns.flatMap (toksInsn cfg)).flatMap (encTok tab) ++ X))
       = readLoop cfg tab fuel
           { doneRev := done, mod := some macc,
-            func := some { facc with insnsRev := (labs.map Insn.label ++ insns).reverse ++ facc.insnsRev } } X := by
+            func := some { facc with insnsRev := (settledInsns labs insns).reverse ++ facc.insnsRev } }
+          (((pendingLabs labs insns).map STok.lab).flatMap (encTok tab) ++ X) := by
   induction insns with
   | nil =>
-    intro labs fuel done macc facc X _ _ _ _ _ hp
-    simp only [pendingLabs] at hp
-    subst hp
-    simp [opCount]
+    intro labs fuel done macc facc X _ _ _ _ _
+    simp [opCount, settledInsns, pendingLabs]
   | cons i insns ih =>
-    intro labs fuel done macc facc X hw hlabs hin hl hrefs hp
+    intro labs fuel done macc facc X hw hlabs hin hl hrefs
     have hw1 := hw i List.mem_cons_self
     have hw2 : ∀ j : Insn, j ∈ insns → InsnOK cfg j := fun j hj => hw j (List.mem_cons_of_mem _ hj)
     have hin1 : InTab tab (toksInsn cfg i) := by
@@ -178,15 +245,14 @@ theorem readLoop_insns (cfg : Cfg) (tab : List Str) (insns : List Insn) :
         rcases List.mem_append.mp hl' with h | h
         · exact hlabs l h
         · simp at h; omega
-      have := ih (labs ++ [n]) fuel done macc facc X hw2 hlabs' hin2 hl hr2 (by simpa [pendingLabs] using hp)
+      have := ih (labs ++ [n]) fuel done macc facc X hw2 hlabs' hin2 hl hr2
       simp only [opCount, List.flatMap_cons, toksInsn, List.flatMap_nil, List.append_nil,
-        List.append_assoc, List.singleton_append]
+        List.append_assoc, List.singleton_append, settledInsns, pendingLabs]
       simp only [List.map_append, List.map_cons, List.map_nil, List.flatMap_append, List.flatMap_cons,
         List.flatMap_nil, List.append_nil, List.append_assoc, List.singleton_append,
         List.cons_append, List.nil_append] at this
       exact this
     | op code ops =>
-      simp only [pendingLabs] at hp
       have hstmt := readStmt_insn cfg tab labs code ops
         ((insns.flatMap (toksInsn cfg)).flatMap (encTok tab) ++ X) hlabs hw1 hin1 hl
       have happ : applyStmt { doneRev := done, mod := some macc, func := some facc } (.insn labs code ops)
@@ -196,8 +262,9 @@ theorem readLoop_insns (cfg : Cfg) (tab : List Str) (insns : List Insn) :
         simp [applyStmt, hr1]
       have := ih [] fuel done macc
         { facc with insnsRev := (Insn.op code ops :: (labs.reverse.map Insn.label ++ facc.insnsRev)) } X
-        hw2 (by simp) hin2 hl hr2 hp
-      simp only [opCount, List.flatMap_cons, List.flatMap_append, List.append_assoc]
+        hw2 (by simp) hin2 hl hr2
+      simp only [opCount, List.flatMap_cons, List.flatMap_append, List.append_assoc, settledInsns,
+        pendingLabs]
       rw [← Nat.add_assoc, readLoop_step cfg tab _ _ _ _ _ _ hstmt (by simp) happ]
       simp only [List.map_nil, List.flatMap_nil, List.nil_append] at this
       rw [this]
@@ -265,6 +332,7 @@ theorem readLoop_func (cfg : Cfg) (tab : List Str) (f : Func) (fuel : Nat) (done
                                   decl := itemDecl (.func f) ++ macc.decl },
           func := none } X := by
   obtain ⟨hn, hr, hrt, hargs, hlocs, hglobs, hq, hinsns, hpend⟩ := hw
+  have hplt := pendingLabs_lt cfg f.insns [] hinsns (by simp)
   -- the pieces of the token list
   have hinA : InTab tab ([STok.name (Kw.bytes .func), STok.name f.name] ++ toksProto f.vararg f.res f.args) :=
     hin.of_subset (fun t ht => by simp only [toksItem, List.mem_append] at ht ⊢; simp_all)
@@ -299,15 +367,17 @@ theorem readLoop_func (cfg : Cfg) (tab : List Str) (f : Func) (fuel : Nat) (done
     { macc with decl := (f.name, true) :: macc.decl }
     { name := f.name, vararg := f.vararg, res := f.res, args := f.args,
       locals := [] ++ f.locals, globals := [] ++ f.globals, insnsRev := [] }
-    (encTok tab (.name (Kw.bytes .endfunc)) ++ X) hinsns (by simp) hinI hl hrefs' hpend
+    (encTok tab (.name (Kw.bytes .endfunc)) ++ X) hinsns (by simp) hinI hl hrefs'
   simp only [List.map_nil, List.flatMap_nil, List.nil_append] at h4
   dsimp only
   simp only [List.nil_append]
   rw [← Nat.add_assoc, h4]
-  -- 5. endfunc
-  have h5 := readStmt_kwOnly cfg tab .endfunc .funcEnd X (Or.inl ⟨rfl, rfl⟩) hinE hl
+  -- 5. endfunc, preceded by the labels that follow the last instruction
+  have h5 := readStmt_funcEnd cfg tab (pendingLabs [] f.insns) X hplt hpend hinE hl
   rw [readLoop_step cfg tab _ _ _ _ _ _ h5 (by simp) (by simp [applyStmt]; rfl)]
-  simp [itemDecl]
+  have e := settled_append_pending f.insns []
+  simp only [List.map_nil, List.nil_append] at e
+  simp [itemDecl, List.map_reverse, e]
 
 /-! ### items, modules -/
 
@@ -411,7 +481,7 @@ theorem readLoop_module (cfg : Cfg) (tab : List Str) (m : Module) (fuel : Nat) (
   obtain ⟨decl', h⟩ := readLoop_items cfg tab m.items (fuel + 1) done
     { name := m.name, itemsRev := [], decl := [] } (encTok tab (.name (Kw.bytes .endmodule)) ++ X)
     hitems hinI hl hrefs
-  have s3 := readStmt_kwOnly cfg tab .endmodule .modEnd X (Or.inr ⟨rfl, rfl⟩) h3 hl
+  have s3 := readStmt_modEnd cfg tab X h3 hl
   simp only [toksModule, nstmtsModule, List.flatMap_append, List.flatMap_cons, List.flatMap_nil,
     List.append_nil, List.append_assoc, List.cons_append, List.nil_append] at s1 ⊢
   rw [← Nat.add_assoc, readLoop_step cfg tab _ _ _ _ _ _ s1 (by simp) (by simp [applyStmt]; rfl)]
